@@ -77,6 +77,19 @@ theorem tchar_is_rfc9110 : ∀ n : Fin 256, Ohkami.Http.isTchar (UInt8.ofNat n.v
       || (48 ≤ n.val && n.val ≤ 57) || (65 ≤ n.val && n.val ≤ 90) || (97 ≤ n.val && n.val ≤ 122)) := by                 -- DIGIT / ALPHA
   decide +kernel
 
+/-- **The byte set of a header value in the source is that of RFC 9110 5.5** (`field-vchar = VCHAR / obs-text`, with SP and HTAB inside): no NUL, no bare LF,
+no other control byte, no DEL — a request holding one in a header value is refused (400).  Evaluated from the table the translator regenerates from
+`Request::read` on every run (a source without the check yields the full range and this statement fails). -/
+theorem vchar_is_rfc9110 : ∀ n : Fin 256, Ohkami.Http.isVbyte (UInt8.ofNat n.val) =
+    (n.val == 9 || (32 ≤ n.val && n.val ≤ 126) || 128 ≤ n.val) := by
+  decide +kernel
+
+/-- a value with a control byte is never handed on: whatever the request, an accepted one has only such bytes in its header values -/
+theorem accepted_values_clean (first more : Bytes) (p : Parsed) (h : parse first more = .ok p) :
+    ∃ hs : List (Bytes × Bytes), (p.std, p.custom) = foldHeaders hs ∧ ∀ kv ∈ hs, isValue kv.2 = true := by
+  obtain ⟨_, _, _, hs, _, _, _, _, _, _, _, _, _, _, hl, hfold, _⟩ := parse_sound first more p h
+  exact ⟨hs, hfold, fun kv hkv => (hl kv hkv).2.2.2.2.2.2⟩
+
 /-- **The announced length is judged before anything is loaded** (`0 => no payload`, `PAYLOAD_LIMIT.. => 413`, otherwise the body is read): the order of
 `finish` in the model is the order of `Request::read` in the source, as the translator reads it on every run — so whether a length is refused does not depend on
 where the body bytes happen to be (the first read or later ones) -/
